@@ -1418,9 +1418,14 @@ class Context:
         ex.record_query(name, res, t_total)
         return res, model
 
-    def reachable(self):
-        """Vacuity witness: is the full path condition satisfiable?"""
-        r, m, dt = self.ex.solve(self.all_formulas(), self.ex.query_timeout_ms, None)
+    def reachable(self, timeout_ms=15000):
+        """Vacuity witness: is the full path condition satisfiable?  (short time limit; unknown = no witness)"""
+        r, m, dt = self.ex.solve(self.all_formulas(), timeout_ms, None, fallback=False)
+        if r != 'sat':
+            # cheaper witness: pre + path condition without the (non-linear) definitions
+            r2, m2, dt2 = self.ex.solve(list(self.pre) + list(self.pc), timeout_ms, None, fallback=False)
+            if r2 == 'sat' and r == 'unknown':
+                return 'sat-without-definitions', m2
         return r, m
 
 
